@@ -163,6 +163,9 @@ impl EventLoop {
             // Last session might contain packets which aren't acked. If it's a new session, clear the pending packets.
             if !connack.session_present {
                 self.pending.clear();
+                // nothing is outstanding any more: the publishes of the new session are numbered
+                // (and have to be retransmitted in order) from the current packet id onwards
+                self.state.last_puback = self.state.last_pkid;
             }
             self.network = Some(network);
 
